@@ -72,8 +72,10 @@ impl<F: Fn(f64) -> f64> InterpolationTable<F> {
             offset,
         };
 
-        for i in table.index(min_x)..table.index(max_x) {
-            let x = i as f64 / shift;
+        // sample every grid point from the one at or below min_x to the one at or above max_x
+        let last = (max_x * shift).ceil() as usize - offset;
+        for i in table.index(min_x)..=last {
+            let x = (i + offset) as f64 / shift;
             table.inner.push((table.func)(x));
         }
 
@@ -96,7 +98,7 @@ impl<F: Fn(f64) -> f64> InterpolationTable<F> {
         } else {
             let i = self.index(x);
             // interpolate
-            let fraction = (x * self.shift - i as f64) / self.shift;
+            let fraction = x * self.shift - (i + self.offset) as f64;
             interpolate(self.inner[i], self.inner[i + 1], fraction)
         }
     }
